@@ -52,6 +52,9 @@ ASSUME = [
     "no environment deviations (short I/O, EAGAIN, faults) are offered in this check: the schedule is the only nondeterminism",
     "the SSL_CTX cache is not primed: contexts are created and destroyed inside the explored region",
     "races inside OpenSSL/libc (no XCM frame in either stack) are not XCM's and are reported as INFO only",
+    "task threads are real pthreads, so thread-local library/OpenSSL state (the per-thread OpenSSL error queue) is per "
+    "application thread as in a real program; logging is off (no XCM_DEBUG); the TLS-failure scenarios first let the "
+    "client end read once (post-handshake records consumed) so that the later receive on it is truly idle",
     "windows between two atomic accesses (or any two instructions) that contain no lock operation and no system call are "
     "invisible to the enumeration: there is no scheduling point inside them (e.g. a load and a store of next_id inside "
     "get_next_sock_id, a static function that --wrap cannot reach; a point before the wrapped xcm_tp_socket_create does not "
@@ -87,6 +90,11 @@ def scenarios(tier):
             (two("tcp", "tcp", "SCAHWras", "TGmcD"), 2),              # hand-over
             (two("ux", "tcp", "SCAHWras", "SCcsTGmcD"), 2),
             (two("tls/a", "tls/b", "SCAHWras", "SCcsTGmcD", extra=DEP), 2),
+            # a TLS failure on a socket of a thread's own (junk peer F / refused certificate B) must not disturb
+            # another healthy connection used by that thread afterwards - its own, or one handed over to it
+            (two("tls/a", "tls/a", "SCAMNHWnEas", "FTiDVqc", extra=DEP), 2),
+            (two("tls/a", "tcp", "SCAMNFiBjMcas", "SCcs", extra=DEP), 1),
+            (two("btls/a", "btls/a", "SCAMNHWnEas", "FTiDVqc", extra=DEP), 1),
             ("t0=tls/a:Ss,t1=tls/a:Ss,t2=tls/a:Ss", 2),               # three threads
             (two("tcp", "tcp", "SCcs", "SCcs"), 1, "asan"),
         ]
@@ -104,6 +112,14 @@ def scenarios(tier):
         (two("ux", "tcp", "SCAHWras", "SCcsTGmcD"), 3),
         (two("tls/a", "tls/b", "SCAHWras", "SCcsTGmcD", extra=DEP), 3),
         (two("tls/a", "tls/b", "SCcs", "SCcs", extra=DEP), 3),
+        # a TLS failure in a thread vs. its other / taken-over healthy connections (thread-local OpenSSL state)
+        (two("tls/a", "tls/a", "SCAMNHWnEas", "FTiDVqc", extra=DEP), 3),
+        (two("tls/a", "tls/a", "SCAMNHWnEas", "FTiDVqc"), 2),
+        (two("tls/a", "tls/a", "SCAMNHWnEas", "SBsTiDVqc", extra=DEP), 2),
+        (two("tls/a", "tcp", "SCAMNFiMBijMcas", "SCcs", extra=DEP), 2),
+        (two("btls/a", "btls/a", "SCAMNHWnEas", "FTiDVqc", extra=DEP), 2),
+        (two("btls/a", "ux", "SCAMNFijMBiMcas", "SCcs", extra=DEP), 2),
+        (two("tls/a", "tls/b", "SCAMNFijMcas", "SCAMNFijMcas", extra=DEP), 2),
         # <= 2 preemptions: scheduling points at every shim call in the TLS scenarios, longer scripts, mixes
         (two("tls/a", "tls/a"), 2),
         (two("tls/a", "tls/b"), 2),
@@ -136,6 +152,8 @@ TSAN_SCENARIOS = [
     (two("tls/a", "tls/b", "Ss", "Ss"), 20, 100),
     (two("tcp", "tcp", "SCAHWras", "TGmcD"), 20, 60),
     ("t0=tcp:SCAcas,t1=tls/a:SCAcas,t2=ux:SCAMcas", 20, 60),
+    (two("tls/a", "tls/a", "SCAMNHWnEas", "FTiDVqc"), 10, 40),
+    (two("btls/a", "tls/a", "SCAMNFiBjMcas", "SCAMNFijMcas"), 10, 40),
     ("t0=tls/a:Ss,t1=tls/a:Ss,t2=tls/b:Ss", 20, 100),
 ]
 
@@ -318,13 +336,24 @@ def run(chk, tier, jobs, deadline):
     # the complement first (short, bounded), then the enumeration with the remaining time
     run_tsan(chk, tier, jobs, dl * 0.2)
     run_stress(chk, tier)
-    left = dl - (time.time() - t0)
-    msgfamily.run_configs(chk, "h_thr", cfgs, PREFIXES, jobs, max(30, left),
-                          extra_build=dict(extra_wraps=EXTRA_WRAPS),
-                          counter_names={1: "script_operations_completed", 2: "lock_acquisitions_that_had_to_wait",
-                                         3: "scheduling_points_executed", 4: "ctx_cache_hits_while_held",
-                                         5: "eventfd_handed_to_second_user", 6: "ssl_ctx_created",
-                                         7: "pool_eventfds_created", 8: "mutex_lock_calls_modelled"})
+    CN = {1: "script_operations_completed", 2: "lock_acquisitions_that_had_to_wait",
+          3: "scheduling_points_executed", 4: "ctx_cache_hits_while_held",
+          5: "eventfd_handed_to_second_user", 6: "ssl_ctx_created",
+          7: "pool_eventfds_created", 8: "mutex_lock_calls_modelled"}
+    # run_configs caps every configuration at three times its even share of the time left; the few big <= 3
+    # enumerations (full life cycles) would be cut by that on a loaded machine although the tier as a whole is far
+    # from its deadline, so they run as a group of their own first
+    heavy = [c for c in cfgs if c[1] >= 3 and c[0].count(FULL) == 2]
+    rest = [c for c in cfgs if c not in heavy]
+    parts = []
+    for group in (heavy, rest):
+        if not group:
+            continue
+        left = dl - (time.time() - t0)
+        msgfamily.run_configs(chk, "h_thr", group, PREFIXES, jobs, max(30, left),
+                              extra_build=dict(extra_wraps=EXTRA_WRAPS), counter_names=CN)
+        parts.append(bool(chk.coverage.get("exhaustive")))
+    chk.add_cov(exhaustive=all(parts) and not chk.deadline_hit)
     bounds = sorted(set(c[1] for c in cfgs))
     chk.add_cov(preemption_bounds=bounds,
                 bound_semantics="every schedule with <= bound preemptions per scenario (see per_configuration)",
